@@ -323,7 +323,7 @@ def diagram_reconfigured(acc):
         "rebase-to-package-without-the-components": lambda r, good: r.with_base_module("r.a"),
         "names-are-fully-qualified-now": lambda r, good: r.base_module_included_in_module_names(),
         "point-to-tagless-file": lambda r, good: r.from_file(Path(tagless)),
-        "file-rewritten-without-tags": lambda r, good: open(good, "w").write("[a] --> [b]\n"),
+        "file-rewritten-without-tags": lambda r, good: (open(good, "w").write("[a] --> [b]\n"), register_puml(good, ["a", "b"], [("a", "b")], must_reject=True)),
         "file-rewritten-with-other-components": lambda r, good: (open(good, "w").write("@startuml\n[a] --> [zz]\n@enduml\n"), register_puml(good, ["a", "zz"], [("a", "zz")])),
     }
     n = 0
